@@ -141,6 +141,23 @@ pub proof fn lemma_dec_chunking_independent<T, DEC: Decoder<Item = T, Error = St
         }
     }
 }
+// ---- whole-stream statement (C07): the first error is final ----
+// once a poll has yielded an error, every later poll of any history answers "end of stream" and changes nothing
+pub proof fn lemma_first_error_is_final<T, DEC: Decoder<Item = T, Error = Status>>(ss: Seq<Streaming<T, DEC>>, rs: Seq<Poll<Option<Result<T, Status>>>>, k: int, j: int)
+    requires dec_trace(ss, rs), 0 <= k < j < rs.len(), rs[k] matches Poll::Ready(Some(Err(_)))
+    ensures rs[j] == Poll::<Option<Result<T, Status>>>::Ready(None), ss[j + 1] == ss[k + 1], ss[j].inner.state matches State::Error(None)
+    decreases j - k
+{
+    assert(dec_step(ss[k], ss[k + 1], rs[k]));
+    if j == k + 1 {
+        assert(dec_step(ss[j], ss[j + 1], rs[j]));
+    } else {
+        lemma_first_error_is_final(ss, rs, k, j - 1);
+        let i0 = j - 1;
+        assert(ss[i0 + 1] == ss[k + 1]);
+        assert(dec_step(ss[j], ss[j + 1], rs[j]));
+    }
+}
 '''
 
 SPECS = r'''
@@ -325,6 +342,8 @@ def build():
     W = 'old(self).inner.unparsed() + final(self).inner.body.received@.skip(old(self).inner.body.received@.len() as int)'
     ENC = 'old(self).inner.encoding'
     LIM = 'old(self).inner.limit()'
+    CL_F1 = 'old(self).inner.state matches State::Error(None) ==> r == Poll::<Option<Result<T, Status>>>::Ready(None) && *final(self) == *old(self)'
+    CL_F2 = 'r matches Poll::Ready(Some(Err(_))) ==> final(self).inner.state matches State::Error(None)'
     CL_I = 'final(self).inner.wf() && final(self).inner.same_config(&old(self).inner) && (forall|p: Seq<u8>| final(self).decoder.dec(p) == old(self).decoder.dec(p))'
     CL_H = 'final(self).inner.body.received@.len() >= old(self).inner.body.received@.len() && final(self).inner.body.received@.take(old(self).inner.body.received@.len() as int) == old(self).inner.body.received@'
     CL_M1 = f'''!(old(self).inner.state is Error) ==> (r matches Poll::Ready(Some(Ok(m))) ==> {{
@@ -341,8 +360,8 @@ def build():
                 && final(self).inner.unparsed() == {W})'''
     # the step relation of the whole-stream lemma is the conjunction of these PROVED clauses, with old(self) / final(self) renamed
     def as_step(c):
-        return c.replace('&old(self)', '&pre').replace('old(self)', 'pre').replace('final(self)', 'post')
-    STEP_TEXT = ' &&& '.join('(%s)' % as_step(c) for c in (CL_I, CL_H, CL_M1, CL_P1, CL_N1))
+        return c.replace('*final(self)', 'post').replace('*old(self)', 'pre').replace('&old(self)', '&pre').replace('old(self)', 'pre').replace('final(self)', 'post')
+    STEP_TEXT = ' &&& '.join('(%s)' % as_step(c) for c in (CL_I, CL_H, CL_M1, CL_P1, CL_N1, CL_F1, CL_F2))
     u.fn(D, 'poll_next', within='impl<T> Stream for Streaming<T>',
          header='impl<T, DEC: Decoder<Item = T, Error = Status>> Streaming<T, DEC> {', close=True,
          attrs=['#[verifier::exec_allows_no_decreases_clause]'],
@@ -371,10 +390,8 @@ def build():
                     assert((old(self).inner.unparsed() + r1.skip(n0)) + r2.skip(r1.len() as int) =~= old(self).inner.unparsed() + (r1.skip(n0) + r2.skip(r1.len() as int)));
                 } }''')],
          ensures=[
-             Clause('F1_after_error_nothing_more',
-                    'old(self).inner.state matches State::Error(None) ==> r == Poll::<Option<Result<T, Status>>>::Ready(None) && *final(self) == *old(self)', ['C07']),
-             Clause('F2_first_error_is_final',
-                    'r matches Poll::Ready(Some(Err(_))) ==> final(self).inner.state matches State::Error(None)', ['C07']),
+             Clause('F1_after_error_nothing_more', CL_F1, ['C07']),
+             Clause('F2_first_error_is_final', CL_F2, ['C07']),
              Clause('F3_parked_status_yielded_once',
                     'old(self).inner.state matches State::Error(Some(s)) ==> r == Poll::Ready(Some(Err::<T, Status>(s))) && final(self).inner.body == old(self).inner.body', ['C02', 'C07']),
              Clause('I_invariant_kept', CL_I, ['C01', 'C07']),
